@@ -273,6 +273,8 @@ class C09(Property):
                 yield self.gen_draw(rng)
             elif m == 3:
                 yield self.gen_decision(rng)
+            elif m in (2, 7):
+                yield self.gen_hashy(rng, tier)
             else:
                 flavour = rng.choice(["definite"] * 8 + ["indefinite", "malformed"])
                 c, ops = gen_case(rng, tier, flavour)
@@ -327,6 +329,48 @@ class C09(Property):
         d = {"n": n, "rep": rep, "cache": cache, "width": width, "seekpos": seekpos, "ops": ops}
         nexts = sum(1 for o in ops if o[0] == "next")
         return Case(line, d, "ipair" if not malformed else "ipair-malformed", nexts > n and rep != 1)
+
+    def gen_hashy(self, rng, tier):
+        """paired cached/uncached histories whose render-arg fields, durations and sizes come from a
+        pool with hash-colliding values: unequal but hash-equal (-1/-2, x / x + (2**61 - 1), also inside
+        `Size`) — a revisit after such a change must re-render — and equal *and* hash-equal spellings
+        (True/1/1.0, 0/0.0/-0.0/False; `pyvar`) — a revisit after such a "change" may be served from the
+        cache and must look the same.  The render iterator compares settings with `==`; `hash` plays no role."""
+        M = 2**61 - 1
+        n = rng.choice([2, 2, 3, 4])
+        ints = [-1, -2, -1 - M, 0, 1, 2, 5, 5 + M, 1 + M]
+        durs = [1, 7, 7 + M, 1 + M, "D"]
+        sizes = [[2, 1], [2 + M, 1], [3, 1], [3 + M, 1], [2, 2]]
+        c = {"count": n, "loops": rng.choice([-1, 2, 3]), "cache": rng.choice([["b", 1], ["n", n], ["n", 100]]),
+             "padding": ["exact", 0, 0, 0, 0, 0], "args": rng.choice([None, ["own", rng.choice(ints), rng.choice(ints)]]),
+             "size": rng.choice(sizes), "dur": rng.choice(durs), "rframe": 0, "term": [20, 6], "stream": 0,
+             "stop_at": None, "fail_at": None, "ctor": rng.choice([0, 1]), "finalize": 1,
+             "pyvar": rng.choice([0, 1, 1, 2, 3])}
+        ops = []
+        for _ in range(rng.choice([2, 3, 4, 6] if tier == "quick" else [2, 4, 6, 10])):
+            k = rng.random()
+            if k < 0.6:
+                which = rng.random()
+                if which < 0.4:
+                    ops.append(["args", "own", rng.choice(ints), rng.choice([0, 0, 1, rng.choice(ints)])])
+                elif which < 0.6:
+                    ops.append(["args", "base", rng.choice(ints)])
+                else:
+                    ops.append(["args", "own", rng.choice([0, 1]), rng.choice(ints)])
+            elif k < 0.8:
+                ops.append(["dur", rng.choice(durs)])
+            else:
+                ops.append(["size"] + rng.choice(sizes))
+            # revisit: a whole loop, or seek back and a few frames
+            if rng.random() < 0.6:
+                ops += [["next"]] * rng.choice([n, n, n + 1])
+            else:
+                ops += [["seek", rng.randrange(n), 0]] + [["next"]] * rng.randrange(1, n + 1)
+        ops = [["next"]] * rng.choice([1, n, n]) + ops
+        case = Case(case_line(c, ops, "pair"), {"cfg": c, "ops": ops}, "pair-hashy", True)
+        res = self.impl(case)
+        case._impl = res
+        return case
 
     def gen_draw(self, rng):
         """the public drawing path: loops (negative = infinite, 1, 2, 3) × cache (True, False, below /
